@@ -5,6 +5,7 @@
 //!   DIR/meta.json statistics of what was generated
 mod common;
 mod c02;
+mod c18;
 
 use common::*;
 
@@ -51,6 +52,7 @@ fn main() {
     let mut out = Out::new(&out_dir);
     let extra = match prop.as_str() {
         "C02" => c02::run(&cfg, &mut out),
+        "C18" => c18::run(&cfg, &mut out),
         _ => {
             eprintln!("unknown property {prop}");
             std::process::exit(2)
